@@ -276,12 +276,32 @@ def c04g(db, res):
         raise AnalysisBroken('C04.g: positive controls vanished (writers of htp_tx_t.index: %d, shifts of the transaction list: %d)' % (len(writers), len(shifts)))
     bad = []
     nuse = 0
+    def is_ordinal(e, tainted):
+        return any(m.get('field') == 'index' and m.get('rec') == 'htp_tx_t' for m in nodes(e, lambda y: y.get('k') == 'member')) or \
+            any(v.get('name') in tainted for v in nodes(e, lambda y: y.get('k') == 'var' and y.get('decl') == 'local'))
     for n, f in sorted(db.fn.items()):
-        for b, i, c in f.calls():
-            if c.get('callee') in ('htp_list_array_get', 'htp_list_array_replace') and on_transactions(c):
-                nuse += 1
-                if any(m.get('field') == 'index' and m.get('rec') == 'htp_tx_t' for m in nodes(c['args'][1], lambda y: y.get('k') == 'member')):
-                    bad.append((n, c))
+        sites = [(b, i, c) for b, i, c in f.calls() if c.get('callee') in ('htp_list_array_get', 'htp_list_array_replace') and on_transactions(c)]
+        if not sites:
+            continue
+        # locals that carry the ordinal (a loop that starts at tx->index, a copy of it): flow-insensitive closure
+        tainted = set()
+        ch = True
+        while ch:
+            ch = False
+            for b, i, st in f.stmts():
+                for x in nodes(st, lambda y: y.get('k') in ('decl', 'assign')):
+                    if x['k'] == 'decl':
+                        for v in x['vars']:
+                            if v.get('init') is not None and v['name'] not in tainted and is_ordinal(v['init'], tainted):
+                                tainted.add(v['name'])
+                                ch = True
+                    elif x.get('op') == '=' and (strip(x['l']) or {}).get('k') == 'var' and strip(x['l']).get('decl') == 'local' and strip(x['l'])['name'] not in tainted and is_ordinal(x['r'], tainted):
+                        tainted.add(strip(x['l'])['name'])
+                        ch = True
+        for b, i, c in sites:
+            nuse += 1
+            if is_ordinal(c['args'][1], tainted):
+                bad.append((n, c))
     for n, c in bad:
         res.violated('C04.g', '%s:%s(transactions, tx->index)' % (n, c['callee']), '%s addresses the transaction list with tx->index: after htp_connp_tx_freed() has shifted the list that is another slot, so the finished transaction is not unlinked (the list keeps a dangling entry and never shrinks again)' % n, c['loc'])
     if not bad:
